@@ -114,6 +114,26 @@ def assign_line_indexes(spec: List[Dict], rng) -> None:
         grp(g)
 
 
+def abbreviate_spec(spec: List[Dict], rng, p_expression=0.2) -> Dict[str, str]:
+    """some condition expressions of the tree are WRITTEN with packages (their meaning - the AST kept in the spec - stays the same);
+    returns the package table the resolver has to know"""
+    table: Dict[str, str] = {}
+    counter = [0]
+    for holder in expressions(spec):
+        new_parts = []
+        for ind, spell, cond, text in holder["x"]["parts"]:
+            if cond is not None and rng.random() < p_expression and len(table) < 40:
+                names = [f"{700 + counter[0]}P", f"{701 + counter[0]}P"]
+                counter[0] += 2
+                short, t = G.abbreviate(cond, rng, names)
+                if t:
+                    table.update(t)
+                    text = rng.choice(["", " "]) + G.render(short, rng, G.EXACT) + rng.choice(["", " "])
+            new_parts.append([ind, spell, cond, text])
+        holder["x"] = {"parts": new_parts}
+    return table
+
+
 def walk(spec: List[Dict]) -> Iterator[Dict]:
     """all nodes in document order: a group, then its sub-groups, then its segments each followed by its data elements"""
 
